@@ -580,6 +580,56 @@ func (g *gen) sliceCase(src, sel string) {
 	g.out.Case("#slice 6 "+sel, escFinal(impl)+"\t\t"+escFinal(src), true, "slice-values")
 }
 
+// lvalueCase: an assignment through an index / field path, observed by reading EVERY leaf of the data
+// back with prefix accessors (aget / hget) and counting the keys of every record: the path holds the
+// new value, nothing else changed, no key appeared (runner input "#lvalue <path> | <op>").
+var lvLeaves = []string{
+	"(hget (hget (aget r 0) (quote b)) (quote c))", "(hget (hget (aget r 0) (quote b)) (quote d))", "(hget (aget r 0) (quote e))",
+	"(hget (hget (aget r 1) (quote b)) (quote c))", "(hget (hget (aget r 1) (quote b)) (quote d))", "(hget (aget r 1) (quote e))",
+	"(hget (hget (hget g (quote p)) (quote q)) (quote s))", "(hget (hget (hget g (quote p)) (quote q)) (quote t))", "(hget (hget g (quote p)) (quote u))",
+	"(aget (hget g (quote w)) 0)", "(aget (hget g (quote w)) 1)"}
+var lvConts = []string{
+	"(len r)", "(len (keys (aget r 0)))", "(len (keys (hget (aget r 0) (quote b))))", "(len (keys (aget r 1)))", "(len (keys (hget (aget r 1) (quote b))))",
+	"(len (keys g))", "(len (keys (hget g (quote p))))", "(len (keys (hget (hget g (quote p)) (quote q))))", "(len (hget g (quote w)))"}
+
+func (g *gen) lvalueCase(text, specPath, op, stmt string) {
+	src := text + stmt
+	if g.seen["lv:"+src] {
+		return
+	}
+	g.seen["lv:"+src] = true
+	ee := getEvalEnv()
+	defer func() { pooled = nil }()
+	for _, d := range []string{"(def r [(hash b:(hash c:1 d:2) e:3) (hash b:(hash c:4 d:5) e:6)])",
+		"(def g (hash p:(hash q:(hash s:7 t:8) u:9) w:[10 20]))"} {
+		if r := lib.Eval(ee.env, d, budget); r.Class != lib.OutValue {
+			panic("lvalue prelude: " + r.Show())
+		}
+	}
+	impl := ""
+	if r := lib.Eval(ee.env, "{"+src+"}", budget); r.Class != lib.OutValue {
+		impl = "ERR"
+		if r.Class == lib.OutPanic {
+			impl = "PANIC"
+		}
+	} else {
+		read := func(forms []string) string {
+			var parts []string
+			for _, f := range forms {
+				rr := lib.Eval(ee.env, f, budget)
+				if rr.Class == lib.OutValue {
+					parts = append(parts, canon(rr.Val))
+				} else {
+					parts = append(parts, "?")
+				}
+			}
+			return strings.Join(parts, " ")
+		}
+		impl = read(lvLeaves) + " | " + read(lvConts)
+	}
+	g.out.Case("#lvalue "+specPath+" | "+op, escFinal(impl)+"\t\t"+escFinal(src), true, "lvalue-roundtrip")
+}
+
 // commentCase: the block text with comments inserted must be read as the same tokens as the text
 // without them (intended tokens = what the real reader gives for the bare text), and then mean the same.
 func (g *gen) commentCase(base string, withEval bool) {
@@ -995,6 +1045,36 @@ func main() {
 	}
 	g.sliceCase("v[:]", ":")
 
+	// E3e. assignments through index / field paths (one, two, three components; glued and spaced;
+	// on an indexed value and on a dotted symbol), every assignment operator, all data read back
+	type lv struct {
+		text, path string
+		selector  bool // the target is a selector (index / field applied to a value), not a bare dotted symbol
+	}
+	var lvs []lv
+	for i := 0; i < 2; i++ {
+		is := strconv.Itoa(i)
+		for _, f := range [][2]string{{".b.c", "fb fc"}, {".b.d", "fb fd"}, {".e", "fe"}} {
+			lvs = append(lvs, lv{"r[" + is + "]" + f[0], "fr i" + is + " " + f[1], true})
+			lvs = append(lvs, lv{"r[" + is + "] " + strings.ReplaceAll(f[0], ".", " .")[1:], "fr i" + is + " " + f[1], true})
+		}
+	}
+	lvs = append(lvs, lv{"g.p.q.s", "fg fp fq fs", false}, lv{"g.p .q.s", "fg fp fq fs", true}, lv{"g.p.q .s", "fg fp fq fs", true},
+		lv{"g .p.q.t", "fg fp fq ft", true}, lv{"g.p.u", "fg fp fu", false}, lv{"g.p .u", "fg fp fu", true}, lv{"g .p.u", "fg fp fu", true},
+		lv{"g.w[1]", "fg fw i1", true}, lv{"g.w[0]", "fg fw i0", true}, lv{"g .w[1]", "fg fw i1", true})
+	for _, t := range lvs {
+		g.lvalueCase(t.text, t.path, "set 5", " = 5")
+		g.lvalueCase(t.text, t.path, "set 5", " := 5")
+		if t.selector {
+			// (on a bare dotted symbol += -= ++ -- fail in the prefix form too: reported, not generated)
+			g.lvalueCase(t.text, t.path, "add 2", " += 2")
+			g.lvalueCase(t.text, t.path, "sub 3", " -= 3")
+			g.lvalueCase(t.text, t.path, "inc", "++")
+			g.lvalueCase(t.text, t.path, "dec", "--")
+			g.lvalueCase(t.text, t.path, "set 9", " = a + d")
+		}
+	}
+
 	// E4. index contents of every token length 0..3 (thorough 4) over a small alphabet: v[ ... ]
 	salpha := []string{"a", "1", "+", "++", "--", "not", "b", "[0]", "-", ":", "x", "a:"}
 	smax := 3
@@ -1038,13 +1118,18 @@ func main() {
 	}
 
 	// F. spacing around operators, with the lexer's sign rule
-	operands := []string{"a", "b", "1", "2", "c"}
+	operands := []string{"a", "b", "1", "2", "c", "0xfe", "xe", "0x1E", "2.5"}
 	gapsets := [][2]string{{" ", " "}, {"", ""}, {" ", ""}, {"", " "}}
 	for _, o1 := range symOps {
 		for _, gp := range gapsets {
 			for _, r := range []string{"b", "1"} {
 				g.spacingCase([]string{"a", o1, r}, []string{gp[0], gp[1]}, "spacing1")
 				g.spacingCase([]string{"3", o1, r}, []string{gp[0], gp[1]}, "spacing1")
+				// operands that END in e / E: the exponent look-back of the lexer must not take a
+				// following sign for part of a number unless the text before the e is a mantissa
+				for _, l := range []string{"0xfe", "0x1E", "0xe", "xe", "e", "2.5", "1e5", "0b1"} {
+					g.spacingCase([]string{l, o1, r}, []string{gp[0], gp[1]}, "spacing1-e")
+				}
 			}
 		}
 		for _, o2 := range symOps {
